@@ -67,13 +67,34 @@ def firstDiff {α} [DecidableEq α] [Inhabited α] (a b : Array α) : Option Nat
   if a.size ≠ b.size then return some n
   return none
 
+mutual
+  /-- Invariant of `ts_subtree_summarize_children` that the whole edit/reuse machinery rests on
+  (C10's `LaOK`): the text a node examined covers what each of its children examined —
+  `end(parent) + lookahead(parent) ≥ end(child) + lookahead(child)`.  Returns the first offender. -/
+  def laCovers (t : Tree) (off : Nat) : Option String :=
+    match t with
+    | .mk d ks =>
+      if ks.isEmpty then none
+      else laCoversL ks off (off + d.padding.bytes + d.size.bytes + d.lookahead) d.symbol
+  def laCoversL (ks : List Tree) (off reach parentSym : Nat) : Option String :=
+    match ks with
+    | [] => none
+    | k :: rest =>
+      let kr := off + k.totalBytes + k.data.lookahead
+      if kr > reach then
+        some s!"node of symbol {parentSym} examined text up to byte {reach} but its child of symbol {k.data.symbol} at offset {off} examined up to {kr} (lookahead_bytes of the parent is too small)"
+      else match laCovers k off with
+        | some m => some m
+        | none => laCoversL rest (off + k.totalBytes) reach parentSym
+end
+
 inductive JudgeResult where
   | ok (clean : Bool)
   | fail (msg : String)
 
 /-- The property on one case.  `walkIncr`/`walkScratch` are the public-API cursor walks
 (kind, field name, ranges, flags per node), `apiIncr`/`apiScratch` are `root.has_error()`. -/
-def judge (incr scratch : Tree) (walkIncr walkScratch : Array String) (apiIncr apiScratch : Bool) : JudgeResult :=
+def judgeTrees (incr scratch : Tree) (walkIncr walkScratch : Array String) (apiIncr apiScratch : Bool) : JudgeResult :=
   if !dirtyTree scratch then
     let fi := flatten incr
     let fs := flatten scratch
@@ -92,6 +113,16 @@ def judge (incr scratch : Tree) (walkIncr walkScratch : Array String) (apiIncr a
     else if !(apiIncr && incr.data.errorCost > 0) then
       .fail "new text is not in the language (scratch tree has ERROR/MISSING) but the incremental tree reports no error"
     else .ok false
+
+/-- The property's clauses first; if they hold, the invariant that both parses must establish on
+every node they build (`laCovers`). -/
+def judge (incr scratch : Tree) (walkIncr walkScratch : Array String) (apiIncr apiScratch : Bool) : JudgeResult :=
+  match judgeTrees incr scratch walkIncr walkScratch apiIncr apiScratch with
+  | .fail m => .fail m
+  | .ok c =>
+    if let some m := laCovers scratch 0 then .fail ("from-scratch tree: " ++ m)
+    else if let some m := laCovers incr 0 then .fail ("incremental tree: " ++ m)
+    else .ok c
 
 /-! ## Replay of the real parser's log against `reuseGate` -/
 
